@@ -254,7 +254,7 @@ theorem rt : (e : Expr) → WF e → RT e
       | false => exact Or.inr (pos_postfixLike o _ (Or.inl rfl) hpx)
   | .tern c a b, hwf => by
     intro k term rest out hterm hle hk htf hno hfin
-    obtain ⟨wc, wa, wb, ha14⟩ := hwf
+    obtain ⟨wc, wa, wb⟩ := hwf
     have ihc := rt c wc
     have iha := rt a wa
     have ihb := rt b wb
@@ -300,14 +300,14 @@ theorem rt : (e : Expr) → WF e → RT e
               rw [hfa] at this
               cases this)
           hno13 (fun _ => hI13)
-    -- middle operand
-    have hA : Parses 13 term (toks (fmtSub a precTernaryConditional ternTrueSide) ++
+    -- middle operand: read at the assignment level (delimited by `?` and `:`)
+    have hA : Parses 14 term (toks (fmtSub a precTernaryConditional ternTrueSide) ++
         (.p .Colon :: (toks (wrap (falseIsAssignment b) (fmtSub b precTernaryConditional ternFalseSide)) ++ rest)))
         (a, .p .Colon :: (toks (wrap (falseIsAssignment b) (fmtSub b precTernaryConditional ternFalseSide)) ++ rest)) :=
-      rts_self iha _ _ 13 term _ hterm (by omega)
-        (fun hp => ⟨by have := pos_ternA a hp; omega, fun h => by have := pos_ternA a hp; omega⟩)
-        (noLow_closes 13 term _ _ (Or.inr (Or.inr (Or.inl rfl))))
-        (fun _ => inert_closes 13 term _ _ (Or.inr (Or.inr (Or.inl rfl))))
+      rts_self iha _ _ 14 term _ hterm (by omega)
+        (fun hp => ⟨pos_ternA a hp, fun h => by have := pos_ternA a hp; omega⟩)
+        (noLow_closes 14 term _ _ (Or.inr (Or.inr (Or.inl rfl))))
+        (fun _ => inert_closes 14 term _ _ (Or.inr (Or.inr (Or.inl rfl))))
     -- condition
     have hC : Parses 12 term (toks (fmtSub c precTernaryConditional ternCondSide) ++
         (.p .QuestionMark :: (toks (fmtSub a precTernaryConditional ternTrueSide) ++
@@ -326,7 +326,7 @@ theorem rt : (e : Expr) → WF e → RT e
       refine ⟨max N1 N2 + 1, fun f hf => ?_⟩
       obtain ⟨f', rfl, hf'⟩ := succ_of_pos hf
       unfold cont
-      simp [h1 f' (by omega), h2 f' (by omega)]
+      simp [ternMiddleLevel, ternLastLevel, h1 f' (by omega), h2 f' (by omega)]
     have hp13 : Parses 13 term _ (.tern c a b, rest) := lift hC hK (by omega)
     exact finish_nonloop hp13 (Or.inr (Or.inr (Or.inl rfl))) hle (fun h => by omega) hno hfin
   | .call fn args, hwf => by
